@@ -562,6 +562,9 @@ def run(chk):
                      "the PSK is Hs/C04TranscriptSound.psk_binds (premises: PRF and pre-master-secret construction injective)",
                      "DTLS 1.3 rogue flights are produced by a test-only hook injected with go test -overlay into scratch "
                      "copies of internal/flight/flight13/flight{4,5}handler.go (/repo untouched)",
+                     "reproducibility: every certificate and key of the rogue / victim peers is a constant (lab credentials, "
+                     "zz_verif_c03_creds_test.go); hello randoms, ephemeral keys and signature nonces come from the library's "
+                     "crypto/rand and are not observed",
                      "scenario psk_only_13 (F57, repaired in /repo by 85b75b7: a PSK-only configuration does not offer "
                      "DTLS 1.3): the process's system roots are the lab CA (SSL_CERT_FILE set by this driver); on the repaired "
                      "tree the configuration is refused when the connection is created, reported as a local refusal"])
